@@ -530,3 +530,12 @@ func jsonMapBody(b []byte, m map[string]any) []byte {
 	}
 	return b
 }
+
+// Omits is Cfg.Omit as a function
+func Omits(c Cfg, v reflect.Value, opt string) bool { return c.Omit(v, opt) }
+
+// ElemBody is the untagged encoding of a slice element (empty for a nil pointer)
+func (c Cfg) ElemBody(e reflect.Value) []byte { return c.elemBody(e) }
+
+// CanonEntry walks one map entry
+func (c Cfg) CanonEntry(mt reflect.Type, data []byte) ([]byte, error) { return c.canonEntry(mt, data) }
